@@ -45,7 +45,7 @@ type hk struct{}
 func (hk) Run(e *zerolog.Event, l zerolog.Level, m string) { e.Bool("hooked", true) }
 
 // dropHook discards the events whose message is "drop"; yieldHook is user code in a hook that may block or be preempted.
-// Registered in this order before hk: a discarded event still runs the later hooks, and is never written.
+// Registered in this order: a discarded event still runs the later hooks, and is never written.
 type dropHook struct{}
 
 func (dropHook) Run(e *zerolog.Event, l zerolog.Level, m string) {
@@ -65,6 +65,9 @@ func logOne(l *zerolog.Logger, g, k int, shape string) {
 		l = &c
 	case "ctxarr":
 		c := l.With().Array("ca", arrM{g, k}).Logger()
+		l = &c
+	case "drop": // a logger whose first hook discards the event and whose second hook is a scheduling point
+		c := l.Hook(dropHook{}, yieldHook{})
 		l = &c
 	}
 	e := l.Info().Int("g", g).Int("k", k)
@@ -146,7 +149,7 @@ func play(sc Script) bool {
 			case 1:
 				l = base.With().Int("child", g).Logger()
 			case 2:
-				l = base.Hook(dropHook{}, yieldHook{}, hk{})
+				l = base.Hook(hk{})
 			}
 			ll := l
 			ls[g] = &ll
